@@ -512,7 +512,7 @@ static HUNG_CASES: std::sync::atomic::AtomicUsize = std::sync::atomic::AtomicUsi
 /// an observation): 60 s, 15 s once a case has hung (`VH_C05_CASE_TIMEOUT_S` overrides the first)
 fn case_timeout() -> std::time::Duration {
     let first = std::env::var("VH_C05_CASE_TIMEOUT_S").ok().and_then(|v| v.parse().ok()).unwrap_or(60u64);
-    std::time::Duration::from_secs(if HUNG_CASES.load(std::sync::atomic::Ordering::SeqCst) == 0 { first } else { first.min(15) })
+    std::time::Duration::from_secs(crate::util::load_factor() * if HUNG_CASES.load(std::sync::atomic::Ordering::SeqCst) == 0 { first } else { first.min(15) })
 }
 
 /// Is the damage confined to REDUNDANT copies — is some live pack missing or not the bytes its name says, while every blob any
